@@ -3,6 +3,8 @@ import QR.Proofs.Blank
 import QR.Proofs.Pinned
 import QR.Proofs.SourceTieA1
 import QR.Proofs.SourceTieA2
+import QR.Proofs.ReadBack
+import QR.Proofs.CapstoneE2C04
 /-
 C04 - format and version information are the correct BCH codewords in both copies, each bit at its ISO-assigned module.
 Model side: setup_type_info / setup_type_number (loops with the code's `i < 6 / i < 8 / i < 9` arithmetic) and the
@@ -189,6 +191,111 @@ theorem C04_source_setupTypeNumber_src (n version : Nat) (hn : 11 ≤ n) (m : Ma
   QR.SourceTieA.setupTypeNumber_src n version hn m test
 
 end SourceTieT2
+
+/-! ### Capstones: (ii) composed with (i) - the TRANSLATED SOURCE satisfies the Spec-level statements.
+    The `…Src` functions (`QR/Proofs/CapstoneE2.lean`) are the right-hand sides of the bridge theorems above: the Python function
+    assembled from the `QR.Gen.Code` fragments, with each callee that is not translated in place as an explicit parameter. -/
+section Capstone
+open QR.Model QR.Gen.Code QR.SourceTieA QR.CapstoneE2
+
+theorem C04_source_bchTypeInfoSrc_eq (data : Nat) : bchTypeInfoSrc bchDigit data = bchTypeInfo data :=
+  (C04_source_bchTypeInfo_src data).1.symm
+
+theorem C04_source_bchTypeNumberSrc_eq (data : Nat) : bchTypeNumberSrc bchDigit data = bchTypeNumber data :=
+  (C04_source_bchTypeNumber_src data).1.symm
+
+/-- **capstone, util.py:BCH_type_info** (callee `util.py:BCH_digit` = the parameter, instantiated by `Model.bchDigit`, which
+    `C04_source_bchDigit_src_while` ties to the translated `while` loop of `BCH_digit`): for all 32 (level, mask) data words
+    the translated initialisation / loop / result expression returns the ISO format word `Spec.formatWord` (BCH(15,5)
+    codeword xor 101010000010010, by `C04_spec_sound`); from `C04_source_bchTypeInfo_src` and `C04_format_code`.
+    Second part, fuel-free: the Python `while` statement terminates, and EVERY terminating run returns the ISO word. -/
+theorem C04_source_capstone_format_code (d : Nat) (hd : d < 32) :
+    bchTypeInfoSrc bchDigit d = Spec.formatWord d ∧
+    (∃ s, While (bch_type_info_cond bchDigit d) (bch_type_info_step bchDigit d) (bch_type_info_init bchDigit d) s) ∧
+    ∀ s, While (bch_type_info_cond bchDigit d) (bch_type_info_step bchDigit d) (bch_type_info_init bchDigit d) s →
+      bch_type_info_result bchDigit d s = Spec.formatWord d := by
+  obtain ⟨s0, hs0, hr0⟩ := C04_source_bchTypeInfo_src_while d
+  refine ⟨(C04_source_bchTypeInfoSrc_eq d).trans (C04_format_code d hd), ⟨s0, hs0⟩, fun s hs => ?_⟩
+  rw [While.det hs hs0, hr0]
+  exact C04_format_code d hd
+
+/-- **capstone, util.py:BCH_type_number** (callee `BCH_digit` = parameter, as above): for every 6-bit version number (in
+    particular versions 7..40) the translated loop returns the ISO version word `Spec.versionWord` (BCH(18,6) codeword, by
+    `C04_spec_sound`); from `C04_source_bchTypeNumber_src` and `C04_version_code`. Fuel-free second part as above. -/
+theorem C04_source_capstone_version_code (v : Nat) (hv : v < 64) :
+    bchTypeNumberSrc bchDigit v = Spec.versionWord v ∧
+    (∃ s, While (bch_type_number_cond bchDigit v) (bch_type_number_step bchDigit v) (bch_type_number_init bchDigit v) s) ∧
+    ∀ s, While (bch_type_number_cond bchDigit v) (bch_type_number_step bchDigit v) (bch_type_number_init bchDigit v) s →
+      bch_type_number_result bchDigit v s = Spec.versionWord v := by
+  obtain ⟨s0, hs0, hr0⟩ := C04_source_bchTypeNumber_src_while v
+  refine ⟨(C04_source_bchTypeNumberSrc_eq v).trans (C04_version_code v hv), ⟨s0, hs0⟩, fun s hs => ?_⟩
+  rw [While.det hs hs0, hr0]
+  exact C04_version_code v hv
+
+theorem C04_source_setupTypeInfoSrc_eq (n level : Nat) (hn : 15 ≤ n) (m : Mat) (test : Bool) (mask : Nat) :
+    setupTypeInfoSrc (bchTypeInfoSrc bchDigit) n level m test mask = setupTypeInfo n level m test mask := by
+  rw [C04_source_setupTypeInfo_src n level hn m test mask]
+  unfold setupTypeInfoSrc
+  rw [C04_source_bchTypeInfoSrc_eq]
+
+theorem C04_source_setupTypeNumberSrc_eq (n version : Nat) (hn : 11 ≤ n) (m : Mat) (test : Bool) :
+    setupTypeNumberSrc (bchTypeNumberSrc bchDigit) n version m test = setupTypeNumber n version m test := by
+  rw [C04_source_setupTypeNumber_src n version hn m test]
+  unfold setupTypeNumberSrc
+  rw [C04_source_bchTypeNumberSrc_eq]
+
+/-- **capstone, main.py:QRCode.setup_type_info + setup_type_number over util.py:BCH_type_info / BCH_type_number** (the whole
+    chain source-assembled; only `BCH_digit` is a parameter, instantiated by `Model.bchDigit`; the version test is the
+    translated `self.version >= 7` of `makeImpl`): for all 40 versions, 4 levels, 8 masks, test/final and every matrix of
+    the right shape, after the translated write loops every format / version / dark-module cell holds exactly the bit the ISO
+    layout assigns to it (`Spec.infoCell`) and every other cell is untouched; from `C04_source_setupTypeInfo_src`,
+    `C04_source_setupTypeNumber_src`, `C04_source_bchTypeInfo_src`, `C04_source_bchTypeNumber_src` and `C04_written`. -/
+theorem C04_source_capstone_written (v level mask : Nat) (test : Bool) (m : Mat)
+    (hv1 : 1 ≤ v) (hv40 : v ≤ 40) (hl : level < 4) (hk : mask < 8) (hm : MatShape m (Spec.size v)) :
+    let n := Spec.size v
+    let mi := setupTypeInfoSrc (bchTypeInfoSrc bchDigit) n level m test mask
+    let m' := (if makeImpl_type_number_test v then setupTypeNumberSrc (bchTypeNumberSrc bchDigit) n v mi test else mi)
+    MatShape m' n ∧ ∀ r c, r < n → c < n →
+      m'.get r c = (match Spec.infoCell v level mask test r c with | some b => some b | none => m.get r c) := by
+  intro n mi m'
+  have hn : 15 ≤ Spec.size v := by unfold Spec.size; omega
+  have hn' : 11 ≤ Spec.size v := by omega
+  have h := C04_written v level mask test m hv1 hv40 hl hk hm
+  have e : m' = (if v ≥ 7 then Model.setupTypeNumber (Spec.size v) v (Model.setupTypeInfo (Spec.size v) level m test mask) test
+               else Model.setupTypeInfo (Spec.size v) level m test mask) := by
+    show (if makeImpl_type_number_test v then
+        setupTypeNumberSrc (bchTypeNumberSrc bchDigit) (Spec.size v) v
+          (setupTypeInfoSrc (bchTypeInfoSrc bchDigit) (Spec.size v) level m test mask) test
+        else setupTypeInfoSrc (bchTypeInfoSrc bchDigit) (Spec.size v) level m test mask) = _
+    rw [C04_source_setupTypeInfoSrc_eq _ _ hn, C04_source_setupTypeNumberSrc_eq _ _ hn']
+    simp only [makeImpl_type_number_test, decide_eq_true_eq]
+  rw [e]
+  exact h
+
+/-- **capstone (reader), same chain as `C04_source_capstone_written`**: any symbol `S` that shows the matrix written by the
+    translated `setup_type_info` (+ `setup_type_number` for v ≥ 7) in final mode is read back by the strict Spec reader as
+    exactly (level, mask), both format copies equal, and passes the version-information test; from
+    `C04_source_capstone_written` and `C04_read_back`. -/
+theorem C04_source_capstone_read_back (S : Spec.Sym) (v level mask : Nat) (l : Spec.Level) (m : Mat)
+    (hv1 : 1 ≤ v) (hv40 : v ≤ 40) (hl : level < 4) (hk : mask < 8)
+    (hlv : Spec.Level.ofIndicator level = some l) (hm : MatShape m (Spec.size v)) (hn : S.n = Spec.size v)
+    (hS : ∀ r c, r < Spec.size v → c < Spec.size v →
+      S.get r c = (((if makeImpl_type_number_test v
+        then setupTypeNumberSrc (bchTypeNumberSrc bchDigit) (Spec.size v) v
+          (setupTypeInfoSrc (bchTypeInfoSrc bchDigit) (Spec.size v) level m false mask) false
+        else setupTypeInfoSrc (bchTypeInfoSrc bchDigit) (Spec.size v) level m false mask).get r c).getD false)) :
+    Spec.readFormat S = .ok (l, mask) ∧ Spec.versionInfoOK S v = true := by
+  apply C04_read_back S v level mask l hv1 hv40 hl hk hlv hn
+  intro r c b hb
+  obtain ⟨hr, hc⟩ := QR.Sym.infoCell_inBounds v level mask hv1 false r c b hb
+  have h := (C04_source_capstone_written v level mask false m hv1 hv40 hl hk hm).2 r c hr hc
+  rw [hS r c hr hc, h, hb]
+  rfl
+
+/-- the capstones at a concrete input: M / mask 101 and version 7 (the published ISO examples), evaluated on the translated loops -/
+example : bchTypeInfoSrc bchDigit 0b00101 = 0b100000011001110 ∧ bchTypeNumberSrc bchDigit 7 = 0x07C94 := by decide
+
+end Capstone
 
 /-- the Python functions this property's model mirrors have, in /repo's current working tree, exactly the normalised
     ASTs the model was written and validated against (fingerprints regenerated by T1 on every run) -/
